@@ -80,6 +80,7 @@ Ltac fin := cbn [bv bc bna is_missing fst snd]; repeat split; auto; try lia;
 
 Section Axis1.
 Context {A : Type}.
+Variable cf : bool.   (* which slice gives the backward bridging count: see SF/Missing.v M_dir_block2 *)
 Implicit Types (l cs : list (option A)) (gs : list (A * nat)) (st : option (bridge A)) (bs : list (rblock A)).
 
 (* S never fills again before the next present cell *)
@@ -237,7 +238,7 @@ Qed.
 
 Lemma block2_fwd_ok limit st last run anyna cs out st' : 0 <= limit ->
   R limit st last run -> rb_ok (RB2 anyna cs) = true ->
-  M_dir_block2 true limit st anyna cs = (out, st') ->
+  M_dir_block2 cf true limit st anyna cs = (out, st') ->
   out = S_ffill_go limit last run cs /\ R limit st' (fst (S_carry last run cs)) (snd (S_carry last run cs)).
 Proof.
   intros Hl [Hr HR] Hok HM. cbn [rb_ok] in Hok. apply andb_true_iff in Hok as [Hne Hflag].
@@ -397,23 +398,23 @@ Qed.
 (* ---------------------------------------------------------------- rows and frames, forward *)
 Lemma block_fwd_ok limit st last run b out st' : 0 <= limit ->
   R limit st last run -> rb_ok b = true ->
-  M_dir_block true limit st b = (out, st') ->
+  M_dir_block cf true limit st b = (out, st') ->
   out = S_ffill_go limit last run (rb_cells b) /\
   R limit st' (fst (S_carry last run (rb_cells b))) (snd (S_carry last run (rb_cells b))).
 Proof. destruct b; [apply block1_ok | apply block2_fwd_ok]. Qed.
 
 Lemma row_fwd_go limit bs : 0 <= limit -> forall st last run, R limit st last run -> row_ok bs = true ->
-  concat (M_dir_row_go true limit st bs) = S_ffill_go limit last run (row_cells bs).
+  concat (M_dir_row_go cf true limit st bs) = S_ffill_go limit last run (row_cells bs).
 Proof.
   intros Hl. induction bs as [|b t IH]; intros st last run HR Hok; [reflexivity|].
   cbn [row_ok forallb] in Hok. apply andb_true_iff in Hok as [Hb Ht].
-  cbn [M_dir_row_go]. destruct (M_dir_block true limit st b) as [o st'] eqn:E.
+  cbn [M_dir_row_go]. destruct (M_dir_block cf true limit st b) as [o st'] eqn:E.
   destruct (block_fwd_ok _ _ _ _ _ _ _ Hl HR Hb E) as [-> HR'].
   unfold row_cells. cbn [map concat]. rewrite S_ffill_go_app. f_equal. apply IH; assumption.
 Qed.
 
 Theorem dir_row_forward limit bs : 0 <= limit -> row_ok bs = true ->
-  M_dir_row true limit bs = S_ffill limit (row_cells bs).
+  M_dir_row cf true limit bs = S_ffill limit (row_cells bs).
 Proof.
   intros Hl Hok. unfold M_dir_row, S_ffill. apply row_fwd_go; try assumption. unfold R. split; [lia|reflexivity].
 Qed.
@@ -441,7 +442,7 @@ Lemma row_cells_at (blocks : list (block A)) i : row_cells (map (rblock_at i) bl
 Proof. unfold row_cells, frame_row. rewrite map_map. reflexivity. Qed.
 
 Theorem dir_axis1_forward limit nrows (blocks : list (block A)) : 0 <= limit -> frame_wf nrows blocks = true ->
-  M_dir_axis1 true limit nrows blocks = map (S_ffill limit) (frame_rows nrows blocks).
+  M_dir_axis1 cf true limit nrows blocks = map (S_ffill limit) (frame_rows nrows blocks).
 Proof.
   intros Hl Hwf. unfold M_dir_axis1, frame_rows. rewrite map_map. apply map_ext_in. intros i Hi.
   apply in_seq in Hi. rewrite dir_row_forward, row_cells_at; [reflexivity|assumption|].
@@ -539,8 +540,8 @@ Proof.
 Qed.
 
 Lemma block2_bwd_ok limit st last run anyna cs out st' : 0 <= limit ->
-  R limit st last run -> rb_ok (RB2 anyna cs) = true -> bwd_block_dom limit (RB2 anyna cs) = true ->
-  M_dir_block2 false limit st anyna cs = (out, st') ->
+  R limit st last run -> rb_ok (RB2 anyna cs) = true -> bwd_block_dom cf limit (RB2 anyna cs) = true ->
+  M_dir_block2 cf false limit st anyna cs = (out, st') ->
   rev out = S_ffill_go limit last run (rev cs) /\
   R limit st' (fst (S_carry last run (rev cs))) (snd (S_carry last run (rev cs))).
 Proof.
@@ -617,10 +618,11 @@ Proof.
   assert (Huni : out = apply_slices sl (fst br) /\
                  st' = Some (mk_bridge (hd None out)
                            (if negb (hd false sel) || is_missing (hd None out) then 0
-                            else match last_opt sl with Some s3 => range_len (fst (fst s3)) (snd (fst s3)) len | None => snd br end)
+                            else match (if negb cf then last_opt sl else hd_opt sl) with Some s3 => range_len (fst (fst s3)) (snd (fst s3)) len | None => snd br end)
                            (is_missing (hd None out)))).
   { destruct br as [assigned bc1]. cbn [fst snd]. destruct T as [|t0 T'].
-    - rewrite (Hsl_nil eq_refl) in *. cbn [apply_slices fold_left last_opt]. injection HM as <- <-. split; reflexivity.
+    - rewrite (Hsl_nil eq_refl) in *. cbn [apply_slices fold_left last_opt hd_opt]. injection HM as <- <-.
+      split; [reflexivity|]. destruct cf; reflexivity.
     - injection HM as <- <-. split; reflexivity. }
   clear HM. destruct Huni as [Hout Hst'].
   assert (Hslb : sl = slices_bwd limit 0 gs).
@@ -638,7 +640,9 @@ Proof.
     cbn [rev flat flat_map S_groups S_carry fst snd flatb S_groupsb] in *. cbn [app] in *.
     destruct kend as [|kend]; [exfalso; apply Hcs; reflexivity|].
     assert (Hhdsel : hd false sel = true) by (unfold sel, cs; cbn [flatb flat_map app]; rewrite sel_nones; reflexivity).
-    rewrite Hhdsel. cbn [negb orb]. rewrite Hslb. cbn [slices_bwd last_opt]. rewrite Hout'.
+    rewrite Hhdsel. cbn [negb orb]. rewrite Hslb. cbn [slices_bwd last_opt hd_opt].
+    replace (if negb cf then @None (Z * Z * option A) else None) with (@None (Z * Z * option A)) by (destruct cf; reflexivity).
+    rewrite Hout'.
     split; [lia|]. cbn [bv bc bna]. split; [reflexivity|].
     destruct last as [v|].
     + rewrite bridge_part_b_some.
@@ -670,16 +674,20 @@ Proof.
       destruct (Nat.eq_dec (reach limit 0 (S j)) (S j)) as [Hall|Hnot].
       * rewrite Hall. replace (S j - S j)%nat with 0%nat by lia. cbn [nones repeat app hd is_missing].
         split; [reflexivity|].
-        (* guard: first and last yielded slice equally long (or no limit) *)
-        apply orb_true_iff in Hdom as [E0 | Hdom]; [left; lia|].
-        fold sel in Hdom. rewrite Hhdsel in Hdom. replace (0 <? Z.of_nat (S j)) with true in Hdom by lia. cbn [negb orb] in Hdom.
-        fold cs in Hdom. fold len in Hdom. fold T in Hdom. fold sl in Hdom.
-        right.
         pose proof (first_len_slices_bwd limit x (S j) gs' len ltac:(lia)) as Hfirst.
         rewrite <- Hslb in Hfirst.
-        destruct sl as [|s0 sl'] eqn:Esl.
-        -- exfalso. apply Hfirst. unfold cs in Hlen. rewrite Hlen. lia.
-        -- cbn [last_opt]. rewrite last_cons_same. apply Z.eqb_eq in Hdom. rewrite <- Hdom, Hfirst by (rewrite Hlen; lia). rewrite Hall. reflexivity.
+        destruct cf; cbn [negb orb] in Hdom |- *.
+        -- (* repaired code: the first yielded slice *)
+           right. destruct sl as [|s0 sl'] eqn:Esl.
+           ++ exfalso. apply Hfirst. unfold cs in Hlen. rewrite Hlen. lia.
+           ++ cbn [hd_opt]. rewrite Hfirst by (rewrite Hlen; lia). rewrite Hall. reflexivity.
+        -- (* pinned code: the last yielded slice; guard: first and last equally long (or no limit) *)
+           apply orb_true_iff in Hdom as [E0 | Hdom]; [left; lia|].
+           fold sel in Hdom. rewrite Hhdsel in Hdom. replace (0 <? Z.of_nat (S j)) with true in Hdom by lia. cbn [negb orb] in Hdom.
+           fold cs in Hdom. fold len in Hdom. fold T in Hdom. fold sl in Hdom.
+           right. destruct sl as [|s0 sl'] eqn:Esl.
+           ++ exfalso. apply Hfirst. unfold cs in Hlen. rewrite Hlen. lia.
+           ++ cbn [last_opt]. rewrite last_cons_same. apply Z.eqb_eq in Hdom. rewrite <- Hdom, Hfirst by (rewrite Hlen; lia). rewrite Hall. reflexivity.
       * pose proof (reach_le limit 0 (S j)).
         replace (S j - reach limit 0 (S j))%nat with (S (j - reach limit 0 (S j)))%nat by lia.
         cbn [nones repeat app hd is_missing].
